@@ -1,4 +1,5 @@
 import OSProofs.Props.C01
+import OSProofs.Props.C01b
 #print axioms OS.C01_PL
 #print axioms OS.C01_BTF
 #print axioms OS.C01_BTP
@@ -11,3 +12,6 @@ import OSProofs.Props.C01
 #print axioms OS.C01_teamAgg_inflate
 #print axioms OS.C01_compute
 #print axioms OS.C01_rate_omitted
+#print axioms OS.C01_rate_ranked
+#print axioms OS.C01_rate_ranked_full
+#print axioms OS.C01_rate_clamped
